@@ -29,7 +29,7 @@ def main():
         demo = os.path.join(src, f"{name}_demo.py")
         d0 = sh(f"cd {wt} && /venv/bin/python {demo}")
         meta["demo_exit_unchanged"] = d0.returncode
-        ap = sh(f"git -C {wt} apply --3way {src}/{name}.diff")
+        ap = sh(f"git -C {wt} apply --recount {src}/{name}.diff")
         if ap.returncode != 0:
             ap = sh(f"cd {wt} && patch -p1 < {src}/{name}.diff")
         meta["patch_applies"] = ap.returncode == 0
